@@ -302,6 +302,9 @@ func (p *Program) runPath(i *interpreter, ex *Explorer, solver *Solver, entry *s
 		call(i, nil, token.NoPos, entry, nil)
 		ctx.flushAsserts()
 	}()
+	if pa == nil && len(ctx.trace) < len(ctx.prefix) {
+		pa = &pathAbort{"engine", "replay divergence: path ended before its decision prefix was consumed"}
+	}
 	if pa != nil && pa.kind == "killed" && i.sched.fail != nil {
 		pa = i.sched.fail
 	}
